@@ -106,28 +106,56 @@ def diff(before: dict, after: dict) -> list:
 # storage faults, injected into nauyaca.server.handler's namespace (we run as root: chmod is useless)
 # ----------------------------------------------------------------------------------------------
 class Fault:
-    kind = None      # None | mkdir | write | writeperm | rename | unlink
+    kind = None      # None | mkdir | open | write | rename | unlink
     arg = 0
     made = 0         # directories created so far in this request
+    tag = "nvtmp"    # what secrets.token_hex returns inside the handler module
 
 
-def set_fault(f) -> None:
+def set_fault(f, tag="nvtmp") -> None:
     Fault.kind = f[0] if f else None
     Fault.arg = f[1] if f and len(f) > 1 else 0
     Fault.made = 0
+    Fault.tag = tag
+
+
+class _FailingFile:
+    """binary file object whose write stores the first k bytes and then fails (disk full)"""
+
+    def __init__(self, f, k, name):
+        self._f, self._k, self._name = f, k, name
+
+    def write(self, data):
+        self._f.write(bytes(data)[: self._k])
+        self._f.flush()
+        raise OSError(errno.ENOSPC, "No space left on device (injected)", self._name)
+
+    def __enter__(self):
+        return self
+
+    def __exit__(self, *a):
+        self._f.close()
+        return False
+
+    def close(self):
+        self._f.close()
+
+    def __getattr__(self, name):
+        return getattr(self._f, name)
 
 
 class FaultyPath(pathlib.PosixPath):
-    """pathlib.Path as the handler sees it: identical unless a fault is armed"""
+    """pathlib.Path as the handler sees it: identical unless a fault is armed.  `write_bytes`
+    goes through `open`, so both the in-place and the temp-file variants of the handler are hit."""
 
-    def write_bytes(self, data):
-        if Fault.kind == "writeperm":
+    def open(self, mode="r", buffering=-1, encoding=None, errors=None, newline=None):
+        writing = any(c in mode for c in "wxa+")
+        if writing and Fault.kind == "open":
             raise PermissionError(errno.EACCES, "Permission denied (injected)", str(self))
-        if Fault.kind == "write":
-            with open(self, "wb") as f:
-                f.write(bytes(data)[: Fault.arg])
-            raise OSError(errno.ENOSPC, "No space left on device (injected)", str(self))
-        return super().write_bytes(data)
+        f = super().open(mode, buffering, encoding, errors, newline)
+        if writing and Fault.kind == "write":
+            return _FailingFile(f, Fault.arg, str(self))
+        return f
 
     def mkdir(self, mode=0o777, parents=False, exist_ok=False):
         # pathlib's algorithm, with the injection point in front of every creation that would succeed
@@ -165,14 +193,29 @@ class OsProxy:
         return os.replace(src, dst, **kw)
 
 
+class SecretsProxy:
+    """stands in for the `secrets` module inside nauyaca.server.handler: a chosen temporary name"""
+
+    def __getattr__(self, name):
+        import secrets
+
+        return getattr(secrets, name)
+
+    @staticmethod
+    def token_hex(n=None):
+        return Fault.tag
+
+
 def patch_handler_module():
-    """(idempotent) make nauyaca.server.handler use FaultyPath and OsProxy"""
+    """(idempotent) make nauyaca.server.handler use FaultyPath, OsProxy and SecretsProxy"""
     from nauyaca.server import handler as hm
 
     if getattr(hm, "Path", None) is not FaultyPath:
         hm.Path = FaultyPath
     if not isinstance(getattr(hm, "os", None), OsProxy):
         hm.os = OsProxy()
+    if not isinstance(getattr(hm, "secrets", None), SecretsProxy):
+        hm.secrets = SecretsProxy()
     return hm
 
 
